@@ -704,3 +704,29 @@ pub fn run() {
   run.assume("reference norm / conforms / coerce in engines/c11.rs; null items of a collection, contexts with missing or additional entries on the input side, and allowed values on output types are left open (executed, not compared)");
   run.finish();
 }
+
+/// A few generated models (item definition trees with typed inputs and outputs) for the fault-injection corpus of C12.
+pub fn sample_models() -> Vec<String> {
+  let trees = vec![
+    Ty::CollComp(vec![("a".into(), Ty::Ref(Box::new(Ty::Comp(vec![("a".into(), Ty::Simple(Base::Date, true)), ("b".into(), Ty::Simple(Base::Number, false))])), false)), ("b".into(), Ty::Simple(Base::Number, false))]),
+    Ty::CollRef(Box::new(Ty::Ref(Box::new(Ty::Simple(Base::String, true)), true))),
+  ];
+  let mut out = vec![];
+  for ty in trees {
+    let mut em = Emit { top: vec![], n: 0 };
+    let d = em.def(&ty, "tT");
+    em.top.push(d);
+    let mut m = Model::new("https://verif/c11", "c11");
+    m.items = em.top.clone();
+    m.inputs.push(dmn::Input { name: "In".into(), type_ref: "tT".into() });
+    m.decisions.push(dmn::Decision {
+      name: "Echo".into(),
+      type_ref: Some("tT".into()),
+      requires: dmn::Requires { inputs: vec!["In".into()], decisions: vec![], knowledge: vec![] },
+      logic: Some(Expr::lit("In")),
+    });
+    m.bkms.push(dmn::Bkm { name: "B".into(), type_ref: Some("tT".into()), params: vec![("x".into(), Some("tT".into()))], knowledge: vec![], logic: Expr::lit("x") });
+    out.push(m.to_xml());
+  }
+  out
+}
